@@ -1,9 +1,9 @@
 """Auer: C02 (discarding) and C03 (pareto_updating) with each design's OWN displayed half-width.
 
 Widths: the property speaks about the designs' own confidence widths, i.e. the half-widths of the
-rectangles the design space currently displays, W_k(reg(x)).  The code reads `self.beta_t[pos]`, a row of
+rectangles the design space currently displays, W_k(A.reg(x)).  The code reads `self.beta_t[pos]`, a row of
 the array `compute_beta` returned, addressed by the POSITION of the design in the iteration order of
-self.S.  The link  beta_t[i] == W(reg(seq_S[i]))  is therefore a PRECONDITION of the two methods here
+self.S.  The link  beta_t[i] == W(A.reg(seq_S[i]))  is therefore a PRECONDITION of the two methods here
 (`aligned`), and an obligation at their call sites in run_one_step (see c06_steps.py), where it fails for
 use_empirical_beta=True after discarding has shrunk S (known finding) and holds otherwise.
 """
@@ -15,7 +15,7 @@ from pyvc import libmodel as L
 from pyvc import setmode as SM
 from pyvc import values as V
 from pyvc.values import Opaque, SObj
-from .algos import ALGOS, REGION, AlgoState, reg, same_set, set_is
+from .algos import ALGOS, REGION, AlgoState, same_set, set_is
 
 I = z3.IntSort()
 q = z3.Int("q!w")
@@ -45,8 +45,8 @@ def auer_state(t, m):
     A.CEN = [z3.Function("CEN%d" % k, REGION, z3.RealSort()) for k in range(m)]
     A.WID = [z3.Function("WID%d" % k, REGION, z3.RealSort()) for k in range(m)]
     A.obj.fields["beta_t"] = RowMap(A.BT, A.S.card())
-    A.ds.fields["confidence_regions"] = SM.IndexMap(
-        reg, "Region", A.N, attrs=lambda term: {"center": L.mk([f(term) for f in A.CEN], (m,), "f")})
+    from .algos import RegionList
+    A.ds.fields["confidence_regions"] = RegionList(A.REG0, A.N, attrs=lambda term: {"center": L.mk([f(term) for f in A.CEN], (m,), "f")})
     i = z3.Int("i!q")
     rr = z3.Const("r!q", REGION)
     # displayed rectangles have lower <= upper (C14), i.e. non-negative half-widths
@@ -54,7 +54,7 @@ def auer_state(t, m):
     t.assume(*A.S.order_axioms())
     # aligned: row i of beta_t is the displayed half-width of the i-th design in S's iteration order
     t.assume(z3.ForAll([i], z3.Implies(z3.And(0 <= i, i < A.S.card()),
-                                       z3.And(*[A.BT[k](i) == A.WID[k](reg(z3.Select(A.S.seq, i))) for k in range(m)]))))
+                                       z3.And(*[A.BT[k](i) == A.WID[k](A.reg(z3.Select(A.S.seq, i))) for k in range(m)]))))
     return A
 
 
@@ -73,15 +73,15 @@ def zmin(xs):
 
 
 def small_m(A, p, qq):
-    return zmax([z3.RealVal(0), zmin([A.CEN[k](reg(qq)) - A.CEN[k](reg(p)) for k in range(A.m)])])
+    return zmax([z3.RealVal(0), zmin([A.CEN[k](A.reg(qq)) - A.CEN[k](A.reg(p)) for k in range(A.m)])])
 
 
 def big_m(A, p, qq):
-    return zmax([z3.RealVal(0), zmax([A.CEN[k](reg(p)) + A.eps - A.CEN[k](reg(qq)) for k in range(A.m)])])
+    return zmax([z3.RealVal(0), zmax([A.CEN[k](A.reg(p)) + A.eps - A.CEN[k](A.reg(qq)) for k in range(A.m)])])
 
 
 def wsum(A, p, qq, k):
-    return A.WID[k](reg(p)) + A.WID[k](reg(qq))
+    return A.WID[k](A.reg(p)) + A.WID[k](A.reg(qq))
 
 
 def auer_replay(t, A, method, expS, expP):
@@ -96,8 +96,8 @@ def auer_replay(t, A, method, expS, expP):
             return float(v.numerator_as_long()) / float(v.denominator_as_long())
         rng = range(n)
         mem = lambda arr: sorted(k for k in rng if tb(z3.Select(arr, k)))
-        cen = [[fl(A.CEN[k](reg(i))) for k in range(A.m)] for i in rng]
-        wid = [[fl(A.WID[k](reg(i))) for k in range(A.m)] for i in rng]
+        cen = [[fl(A.CEN[k](A.reg(i))) for k in range(A.m)] for i in rng]
+        wid = [[fl(A.WID[k](A.reg(i))) for k in range(A.m)] for i in rng]
         exp = {"S": sorted(k for k in rng if tb(expS(z3.IntVal(k)))), "P": sorted(k for k in rng if tb(expP(z3.IntVal(k))))}
         Ls = ["import vopy.algorithms.auer as M",
               "from vopy.confidence_region import RectangularConfidenceRegion",
